@@ -194,6 +194,18 @@ def run(ctx):
 
     # ---- C13.3 loop-carried parser state in the line reader
     line_reader_rules(ctx, facts, "C13.3")
+
+    # ---- C13.4 pauses between the client's writes change nothing: no read on a client socket can give up because time passed.  The sockets
+    # are never given a timeout and never switched to non-blocking mode (a timed-out read surfaces as an I/O error that ends the request
+    # or the connection, so how the bytes are spaced in time would decide what the application sees)
+    tm = [(g, bb, t) for g, bb, t in facts.all_calls(lambda t: bool(re.search(r"^std::(net::(TcpStream|TcpListener)|os::unix::net::(UnixStream|UnixListener))::(set_read_timeout|set_write_timeout|set_nonblocking)$", call_name(t))))]
+    for g, bb, t in tm:
+        a = t["args"][1] if len(t["args"]) > 1 else None
+        o = g.origin(a) if a is not None else ("unknown",)
+        harmless = (o[0] == "agg" and o[4] == "None") or (o[0] == "const" and o[1] is False)
+        ctx.ob("C13.4", "socket-timeout|%s" % g.id, "no timeout is armed on a socket and none is made non-blocking", harmless, g.loc(bb), short(call_name(t)))
+    ctx.ob("C13.4", "no-socket-timeouts", "the crate never arms a read/write timeout on a socket and never makes one non-blocking", not [x for x in tm if True] or all(o.ok for o in ctx.obs if o.key.startswith("C13.4|socket-timeout|")), "crate", nontrivial=True)
+    ctx.counts["C13.4 call sites scanned"] = sum(1 for _ in facts.all_calls())
     return {}
 
 
